@@ -572,7 +572,10 @@ class PixelAperture(Aperture):
                 aperture_sums.append(np.ma.filled(values.sum(), 0.0))
 
                 if error is not None:
-                    variance = (error[slc_large]**2 * aper_weights)[pixel_mask]
+                    # square in floating point: the square of an
+                    # integer error array overflows its dtype
+                    variance = (error[slc_large].astype(float)**2
+                                * aper_weights)[pixel_mask]
                     aperture_sum_errs.append(
                         np.sqrt(np.ma.filled(variance.sum(), 0.0)))
 
